@@ -31,6 +31,18 @@ RULES = {
            "keys()/validate() of the same real graph (covers keys; absent listed keys <=> validate fails for a missing option; the "
            "missing key is listed; failures only InsufficientInformationError where the specification cannot choose a branch); "
            "non-trivial = explain lists an absent key or fails",
+    "C08": "family presets: every graph of <= N nodes rooted at WithOptions / WithDefaultOptions / a dataset with options= / "
+           "default_options= / a with_options or with_default_options derivative (nested; datasets with callbacks and effects) x "
+           "every dictionary overlapping the pre-set ones inside section S; the wrapped real expression under o vs the unwrapped real "
+           "expression under the overlaid dictionary computed by the specification (Mix), the specification's value, and deep "
+           "snapshots of every input dictionary before/after evaluate, validate, keys, explain; non-trivial = every case",
+    "C01": "family caching: every DAG of <= N nodes over datasets (overloads, pre-set/default options, callbacks, effects), cached(), "
+           "switch, coalesce, wrappers, collections, Map; all dictionaries of the graph evaluated in 4 orders (forward, reverse, two "
+           "seeded shuffles) on ONE long-lived real graph, each outcome compared with a freshly built copy and with the specification; "
+           "non-trivial = an evaluation that had predecessors on the same instance",
+    "C02": "family caching: per (graph, dictionary): body runs per cached dataset in one evaluation <= the specification's distinct "
+           "demands (Permit); effects only after their body; then exact repeat / added+changed unmentioned keys / permuted key order "
+           "must run no cached body and no effect and return the same value; non-trivial = the first evaluation succeeded",
     "C03": "same CASE export grouped by graph: keys() present-only; evaluate()/keys() on the dictionary restricted to keys() (the "
            "specification's Restrict) unchanged; for ALL pairs of dictionaries of a graph the fingerprints are equal iff reported "
            "keys and their values are equal (this enumerates every change/delete/add perturbation inside the universe); "
@@ -43,27 +55,56 @@ FAMILIES = {
         consts=dict(Raises="NoRaises", Kinds="FC_Kinds", Paths="FC_Paths", Consts="FC_Consts", Tmpls="None0",
                     Fns="FC_Fns", Bodies="FC_Bodies", DispVals="FC_Disp", Preds="FC_Preds", Presets="None0",
                     MapPaths="FC_MapPaths", Leaves="FC_Leaves"),
-        sharing=False, max_nodes={"quick": 3, "thorough": 4},
+        sharing=False,
+        runs={"quick": [dict(mode="bfs", max_nodes=3), dict(mode="sim", max_nodes=5, min_nodes=4, num=16000, depth=16, procs=8)],
+              "thorough": [dict(mode="bfs", max_nodes=4), dict(mode="sim", max_nodes=6, min_nodes=4, num=40000, depth=16, procs=12)]},
         shards=[["opt", "val", "pred", "fnapp"], ["apply"], ["bind"], ["switch"], ["case"], ["coalesce"], ["coll"], ["map"]],
         shard_defs={"apply": "SK_apply", "bind": "SK_bind", "switch": "SK_switch", "case": "SK_case",
                     "coalesce": "SK_coalesce", "coll": "SK_coll", "map": "SK_map", "opt": "SK_leafish"}),
+    "presets": dict(
+        consts=dict(Raises="NoRaises", Kinds="FP_Kinds", Paths="FP_Paths", Consts="FP_Consts", Tmpls="None0",
+                    Fns="None0", Bodies="FP_Bodies", DispVals="NoSeq", Preds="None0", Presets="FP_Presets",
+                    MapPaths="None0", Leaves="FP_Leaves", Cbs="FP_Cbs", EffSets="FP_Effs", BothPresets="TRUE"),
+        sharing=False,
+        runs={"quick": [dict(mode="bfs", max_nodes=3), dict(mode="sim", max_nodes=5, min_nodes=4, num=8000, depth=16, procs=8)],
+              "thorough": [dict(mode="bfs", max_nodes=4), dict(mode="sim", max_nodes=6, min_nodes=4, num=20000, depth=16, procs=12)]},
+        shards=[["with"], ["ds"], ["dsof"]], shard_defs={"with": "SK_with", "ds": "SK_ds", "dsof": "SK_dsof"}),
+    "caching": dict(
+        consts=dict(Raises="NoRaises", Kinds="FK_Kinds", Paths="FK_Paths", Consts="FK_Consts", Tmpls="None0",
+                    Fns="FK_Fns", Bodies="FK_Bodies", DispVals="FK_Disp", Preds="FK_Preds", Presets="FK_Presets",
+                    MapPaths="FK_MapPaths", Leaves="FK_Leaves", Cbs="FK_Cbs", EffSets="FK_Effs", Caches="FK_Caches"),
+        sharing=True, bfs_consts=dict(Kinds="FK_KindsB", Caches="MemOnly", EffSets="NoEff"),
+        runs={"quick": [dict(mode="bfs", max_nodes=3, sharing=False),
+                        dict(mode="sim", max_nodes=5, min_nodes=3, num=16000, depth=16, procs=8)],
+              "thorough": [dict(mode="bfs", max_nodes=3, sharing=True), dict(mode="bfs", max_nodes=4, sharing=False),
+                           dict(mode="sim", max_nodes=6, min_nodes=3, num=60000, depth=18, procs=12)]},
+        shards=[["ds"], ["cached"], ["with"], ["fnapp"]],
+        shard_defs={"ds": "SK_ds", "cached": "SK_cached", "with": "SK_with", "fnapp": "SK_leafish"}),
     "options": dict(
         consts=dict(Raises="NoRaises", Kinds="FO_Kinds", Paths="FO_Paths", Consts="FO_Consts", Tmpls="FO_Tmpls",
                     Fns="None0", Bodies="FO_Bodies", DispVals="NoSeq", Preds="FO_Preds", Presets="None0",
                     MapPaths="None0", Leaves="FO_Leaves"),
-        sharing=False, max_nodes={"quick": 3, "thorough": 4},
+        sharing=False,
+        runs={"quick": [dict(mode="bfs", max_nodes=3)],
+              "thorough": [dict(mode="bfs", max_nodes=4), dict(mode="sim", max_nodes=6, min_nodes=4, num=20000, depth=16, procs=12)]},
         shards=[["opt"], ["tmpl"]], shard_defs={"opt": "SK_opt", "tmpl": "SK_tmpl"}),
 }
 
 
-def write_cfg(path, fam, tier, roots_def, invariants, emit, max_nodes=None):
+def write_cfg(path, fam, tier, roots_def, invariants, emit, max_nodes, min_nodes=1, sim=False, sharing=None):
     f = FAMILIES[fam]
     lines = ["SPECIFICATION MCSpec", "CONSTANTS"]
-    for k, v in f["consts"].items():
-        lines.append("  %s <- %s" % (k, v))
+    consts = dict(Cbs="NoCb", EffSets="NoEff", Caches="MemOnly", BothPresets="FALSE")
+    consts.update(f["consts"])
+    if not sim and "bfs_consts" in f:
+        consts.update(f["bfs_consts"])
+    for k, v in consts.items():
+        lines.append(("  %s = %s" if v in ("TRUE", "FALSE") else "  %s <- %s") % (k, v))
     lines.append("  RootKinds <- %s" % roots_def)
-    lines.append("  MaxNodes = %d" % (max_nodes or f["max_nodes"][tier]))
-    lines.append("  Sharing = %s" % ("TRUE" if f["sharing"] else "FALSE"))
+    lines.append("  MaxNodes = %d" % max_nodes)
+    lines.append("  MinNodes = %d" % min_nodes)
+    lines.append("  RequireComplete = %s" % ("FALSE" if sim else "TRUE"))
+    lines.append("  Sharing = %s" % ("TRUE" if (f["sharing"] if sharing is None else sharing) else "FALSE"))
     lines.append('  Family = "%s"' % fam)
     lines.append("VIEW MCView")
     for inv in invariants:
@@ -106,6 +147,11 @@ def _work(groups):
     return n, nt, out, sample
 
 
+def _vlog(msg):
+    if os.environ.get("VERIF_VERBOSE"):
+        print("[%s] %s" % (__import__("time").strftime("%H:%M:%S"), msg), file=sys.stderr, flush=True)
+
+
 class _Feeder(threading.Thread):
     """Reads one TLC process's output and submits chunks of CASE payloads to the pool."""
 
@@ -117,8 +163,8 @@ class _Feeder(threading.Thread):
         self.cases = 0
 
     def run(self):
-        proc = subprocess.Popen(self.cmd, cwd=SPEC, stdout=subprocess.PIPE, stderr=subprocess.STDOUT, text=True,
-                                env=self.env)
+        proc = tlc.register_child(subprocess.Popen(self.cmd, cwd=SPEC, stdout=subprocess.PIPE,
+                                                   stderr=subprocess.STDOUT, text=True, env=self.env))
         groups = []
         cur = []
         curkey = None
@@ -148,33 +194,68 @@ class _Feeder(threading.Thread):
         if groups:
             self.results.append(self.pool.apply_async(_work, (groups,)))
         self.rc = proc.wait()
+        _vlog("generator done: %s cases=%d" % (" ".join(self.cmd[-6:]), self.cases))
 
 
-def run_family(prop, fam, tier, sc, rep, max_nodes=None):
+def _tlc_cmd(sc, tag, cfg, extra=()):
+    meta = sc.path("meta-%s" % tag, "x")
+    return ["java", "-XX:+UseParallelGC", "-Xmx3g", "-cp", tlc.JAVA_CP, "tlc2.TLC", "-workers", "1",
+            "-metadir", os.path.dirname(meta), "-noGenerateSpecTE", "-config", cfg] + list(extra) + ["MC_Expr.tla"]
+
+
+_SIMSTAT = __import__("re").compile(r"The number of states generated: (\d+)")
+
+
+def run_family(prop, fam, tier, sc, rep):
+    """Returns (states, transitions, cases replayed, non-trivial, violations, sample)."""
     f = FAMILIES[fam]
-    # 1. model checking of the semantic invariants on the whole family (all cores)
-    allroots = "SK_all"
-    mc_cfg = sc.path("cfg", "MC_%s.cfg" % fam)
-    write_cfg(mc_cfg, fam, tier, allroots, INVARIANTS, emit=False, max_nodes=max_nodes)
-    mc = tlc.require_clean(tlc.run_tlc("MC_Expr", os.path.relpath(mc_cfg, os.path.join(SPEC, "cfg")),
-                                       workers=NPROC, scratch=sc), "MC_Expr/" + fam)
-    # 2. generation, one single-worker TLC per shard, cases streamed to the replay pool
+    states = trans = 0
     ctx = mp.get_context("fork")
-    pool = ctx.Pool(max(2, NPROC - len(f["shards"])), initializer=_init_worker, initargs=(prop,))
+    pool = ctx.Pool(NPROC, initializer=_init_worker, initargs=(prop,))
     results = []
     feeders = []
-    for i, roots in enumerate(f["shards"]):
-        gen_cfg = sc.path("cfg", "Gen_%s_%d.cfg" % (fam, i))
-        write_cfg(gen_cfg, fam, tier, f["shard_defs"][roots[0]], [], emit=True,
-                  max_nodes=max_nodes)
-        meta = sc.path("meta-gen-%s-%d" % (fam, i), "x")
-        cmd = ["java", "-XX:+UseParallelGC", "-Xmx4g", "-cp", tlc.JAVA_CP, "tlc2.TLC", "-workers", "1",
-               "-metadir", os.path.dirname(meta), "-noGenerateSpecTE", "-config", gen_cfg, "MC_Expr.tla"]
-        fd = _Feeder(cmd, dict(os.environ), pool, results, None)
-        fd.start()
-        feeders.append(fd)
-    for fd in feeders:
-        fd.join()
+    for ri, run in enumerate(f["runs"][tier]):
+        if run["mode"] == "bfs":
+            mc_cfg = sc.path("cfg", "MC_%s_%d.cfg" % (fam, ri))
+            write_cfg(mc_cfg, fam, tier, "SK_all", INVARIANTS, emit=False, max_nodes=run["max_nodes"],
+                      sharing=run.get("sharing"))
+            mc = tlc.require_clean(tlc.run_tlc("MC_Expr", os.path.relpath(mc_cfg, os.path.join(SPEC, "cfg")),
+                                               workers=NPROC, scratch=sc), "MC_Expr/%s/bfs%d" % (fam, run["max_nodes"]))
+            states += mc.distinct
+            trans += mc.generated
+            _vlog("MC %s bfs%d: %d states in %.1fs" % (fam, run["max_nodes"], mc.distinct, mc.wall))
+            for i, roots in enumerate(f["shards"]):
+                gen_cfg = sc.path("cfg", "Gen_%s_%d_%d.cfg" % (fam, ri, i))
+                write_cfg(gen_cfg, fam, tier, f["shard_defs"][roots[0]], [], emit=True, max_nodes=run["max_nodes"],
+                          sharing=run.get("sharing"))
+                fd = _Feeder(_tlc_cmd(sc, "gen-%s-%d-%d" % (fam, ri, i), gen_cfg), dict(os.environ), pool, results, None)
+                fd.kind = "bfs"
+                feeders.append(fd)
+        else:
+            procs = run.get("procs", 8)
+            for i in range(procs):
+                sim_cfg = sc.path("cfg", "Sim_%s_%d.cfg" % (fam, ri))
+                write_cfg(sim_cfg, fam, tier, "SK_all", INVARIANTS, emit=True, max_nodes=run["max_nodes"],
+                          min_nodes=run["min_nodes"], sim=True, sharing=run.get("sharing"))
+                extra = ["-simulate", "num=%d" % max(1, run["num"] // procs), "-depth", str(run["depth"]),
+                         "-seed", str(SEED * 1000 + ri * 100 + i + 1)]
+                fd = _Feeder(_tlc_cmd(sc, "sim-%s-%d-%d" % (fam, ri, i), sim_cfg, extra), dict(os.environ), pool,
+                             results, None)
+                fd.kind = "sim"
+                feeders.append(fd)
+    # run at most NPROC//2 generators at a time (the replay pool needs the other cores)
+    limit = max(2, NPROC // 2)
+    pending = list(feeders)
+    running = []
+    while pending or running:
+        running = [fd for fd in running if fd.is_alive()]
+        while pending and len(running) < limit:
+            fd = pending.pop(0)
+            fd.start()
+            running.append(fd)
+        if running:
+            running[0].join(0.2)
+    _vlog("all generators finished; waiting for %d replay chunks" % len(results))
     pool.close()
     total = nontriv = 0
     viol = []
@@ -188,12 +269,20 @@ def run_family(prop, fam, tier, sc, rep, max_nodes=None):
             sample = smp
     pool.join()
     for fd in feeders:
+        text = "".join(fd.tail)
+        if "is violated" in text:
+            raise MachineryError("specification self-contradiction (invariant violated during %s generation of family %s):\n%s" % (
+                fd.kind, fam, text[-3000:]))
         if fd.rc != 0 or any(l.startswith("Error:") for l in fd.tail):
-            raise MachineryError("generation TLC failed for family %s:\n%s" % (fam, "".join(fd.tail[-40:])))
-    gen_cases = sum(fd.cases for fd in feeders)
-    if gen_cases == 0:
+            raise MachineryError("generation TLC failed for family %s:\n%s" % (fam, text[-3000:]))
+        if fd.kind == "sim":
+            m = _SIMSTAT.search(text)
+            if m:
+                trans += int(m.group(1))
+                states += fd.cases
+    if sum(fd.cases for fd in feeders) == 0:
         raise MachineryError("family %s generated no case" % fam)
-    return mc, total, nontriv, viol, sample
+    return states, trans, total, nontriv, viol, sample
 
 
 def summarize(viol, limit=12):
@@ -217,10 +306,10 @@ def check(prop, tier, fams, level_rule, assumptions):
     sample = None
     with Scratch() as sc:
         for fam in fams:
-            mc, n, nt, viol, smp = run_family(prop, fam, tier, sc, rep)
+            st, tr, n, nt, viol, smp = run_family(prop, fam, tier, sc, rep)
             sample = smp or sample
-            states += mc.distinct
-            trans += mc.generated
+            states += st
+            trans += tr
             total += n
             nontriv += nt
             allviol.extend(viol)
@@ -238,7 +327,8 @@ def check(prop, tier, fams, level_rule, assumptions):
         "rule": level_rule,
         "samples": [sample or {"note": "no non-trivial case"}],
         "exhaustive": True,
-        "families": fams,
+        "exhaustive_note": "the bfs runs enumerate their family completely; the simulate runs are seeded random samples of larger graphs",
+        "families": {fam: FAMILIES[fam]["runs"][tier] for fam in fams},
         "invariants_checked_by_tlc": INVARIANTS,
         "violating_cases": len(allviol),
         "known_finding_hits": rep.known_hits,
